@@ -491,6 +491,23 @@ pub fn cmd_pwstr(args: &[String]) {
         if let Some(m) = declared_mem(&s) { if m > 1024 && m <= u32::MAX as u64 { s = s.replace("m=", "m=0"); if declared_mem(&s).map(|m| m > 1024).unwrap_or(false) { continue; } } }
         strings.push(s);
     }
+    // text is not bytes: every field of a valid string, stretched, with a multi-byte character (2, 3 and 4 bytes) starting at
+    // every byte offset 0..=34 - whatever byte index a parser or an error message cuts a field at, some string here has a
+    // character straddling it
+    {
+        let fields = ["argon2id", "v=19", "m=8,t=1,p=1", "c2FsdHNhbHQ", "aGFzaGhhc2hoYXNoaGFzaA"];
+        let filler = ["-variant-of-the-algorithm-with-a-long-name", "000000000000000000000000000000000000", ",x=1,y=2,z=3,w=4,q=5,r=6,s=7,u=8,k=9", "c2FsdHNhbHRzYWx0c2FsdHNhbHRzYWx0c2FsdA", "aGFzaGhhc2hoYXNoaGFzaGhhc2hoYXNoaGFzaA"];
+        for f in 0..fields.len() {
+            let long: String = format!("{}{}", fields[f], filler[f]);
+            for k in 0..=34usize {
+                for mb in ["\u{e9}", "\u{20ac}", "\u{1f600}"] {
+                    let mut parts: Vec<String> = fields.iter().map(|x| x.to_string()).collect();
+                    parts[f] = format!("{}{}{}", &long[..k], mb, &long[k..k.max(20)]);
+                    strings.push(format!("${}", parts.join("$")));
+                }
+            }
+        }
+    }
     let mut rep = Report::new();
     let tmp = format!("{}.child", args[1]);
     let progress = unsafe { libc::mmap(std::ptr::null_mut(), 4096, libc::PROT_READ | libc::PROT_WRITE, libc::MAP_SHARED | libc::MAP_ANONYMOUS, -1, 0) as *mut u32 };
